@@ -10,13 +10,13 @@ package vsched
 import (
 	"cmp"
 	"fmt"
-	"slices"
 	"hash/fnv"
 	"reflect"
 	"runtime/debug"
-	"unsafe"
+	"slices"
 	"strings"
 	"sync"
+	"unsafe"
 )
 
 // ---------------------------------------------------------------------------------------------
@@ -27,10 +27,10 @@ type thread struct {
 	wake    chan struct{}
 	enabled func() bool // nil: runnable
 	done    bool
-	what    string // description of the pending operation (for deadlock reports)
-	h       uint64 // happens-before hash of everything this thread did and observed
-	pdep    uint64 // object the pending operation acts on (0: independent of everything)
-	pop     int    // operation code within the object (0: unspecified)
+	what    string                 // description of the pending operation (for deadlock reports)
+	h       uint64                 // happens-before hash of everything this thread did and observed
+	pdep    uint64                 // object the pending operation acts on (0: independent of everything)
+	pop     int                    // operation code within the object (0: unspecified)
 	pindep  func(otherOp int) bool // same-object operations this one commutes with, in the current state
 }
 
@@ -70,7 +70,7 @@ type point struct {
 	chosen         int
 	runningEnabled bool
 	isData         bool
-	key            uint64 // happens-before hash of the global state at this decision
+	key            uint64   // happens-before hash of the global state at this decision
 	ids            []int    // enabled thread ids, canonical order (sleep mode)
 	deps           []uint64 // dependence object of each enabled thread's pending operation
 	sleep          []int    // ids of the enabled threads that were asleep at this point
@@ -95,13 +95,14 @@ func (x *Exec) stateKey(extra uint64) uint64 {
 
 // Exec is one execution under the scheduler.
 type Exec struct {
-	threads []*thread
-	cur     *thread
-	prefix  []int
-	points  []point
-	choices []int
-	trace   uint64 // rolling hash of (thread, op, object)
-	nobj    int
+	threads  []*thread
+	cur      *thread
+	prefix   []int
+	points   []point
+	choices  []int
+	trace    uint64 // rolling hash of (thread, op, object)
+	nobj     int
+	traceObj map[int]int // object identity -> rank of first use in this execution (trace hash only)
 
 	aborting   bool
 	outcome    string // "", "deadlock", "panic: ...", "exit(n)", "horizon"
@@ -160,6 +161,23 @@ func Active() bool {
 }
 
 func (x *Exec) hash(a, b, c int) {
+	// Object identities are derived from the creating thread's happens-before hash, which folds in
+	// per-address release cells keyed by RAW addresses: when the runtime reuses an address inside one
+	// execution (a stack segment handed to another goroutine, memory swept by the collector) a stale cell
+	// changes that hash from run to run. The state cache only loses some pruning to this, but the trace
+	// hash is what replay determinism is judged on: objects enter it by the order of their first use in
+	// this execution (a function of the schedule alone), not by their identity.
+	if b != 99 && b != 50 && b != 1 && c != 0 {
+		ci, ok := x.traceObj[c]
+		if !ok {
+			if x.traceObj == nil {
+				x.traceObj = map[int]int{}
+			}
+			ci = len(x.traceObj) + 1
+			x.traceObj[c] = ci
+		}
+		c = ci
+	}
 	h := x.trace
 	for _, v := range [3]int{a, b, c} {
 		h ^= uint64(v) + 0x9e3779b97f4a7c15 + (h << 6) + (h >> 2)
@@ -639,16 +657,16 @@ func Access(site string, addr uintptr, write bool) {
 // explorer
 
 type Config struct {
-	Name        string
-	Preemptions int // bound on preemptive context switches
-	Deviations  int // bound on non-default data choices
-	Horizon     int // max decision points per execution (0: 20000)
-	MaxExec     int64
-	Shard       int
-	NShards     int
-	Expired     func() bool
-	Reset       func() // called before every execution (package-level state)
-	NoStateCache bool  // disable happens-before state caching (pure stateless DFS)
+	Name         string
+	Preemptions  int // bound on preemptive context switches
+	Deviations   int // bound on non-default data choices
+	Horizon      int // max decision points per execution (0: 20000)
+	MaxExec      int64
+	Shard        int
+	NShards      int
+	Expired      func() bool
+	Reset        func() // called before every execution (package-level state)
+	NoStateCache bool   // disable happens-before state caching (pure stateless DFS)
 	// Full: unbounded exploration of all interleavings up to Mazurkiewicz-trace equivalence: sleep sets
 	// (operations on different objects are independent) + happens-before state caching. Preemptions
 	// is ignored; Deviations still bounds the data choices.
